@@ -300,6 +300,9 @@ func RunCase(r *vh.Run, c Case, sample bool) {
 	if s.Blocked {
 		r.Count("sessions_with_blocked_data", 1)
 	}
+	if s.NegWindowGrants > 0 {
+		r.Count("grants_into_negative_windows", int64(s.NegWindowGrants))
+	}
 	if s.GatedGrants > 0 {
 		r.Count("gated_grants", int64(s.GatedGrants))
 	}
